@@ -264,3 +264,26 @@ def check_arg_origin(ctx, key, body, call_pattern, arg_index, allowed_regex, wha
             ctx.sample({"fn": body.name, "rule": "argument origin", "call": t["f"], "arg": arg_index, "origins": sorted(names)})
         ok_all = ok_all and ok
     return ok_all
+
+
+def G_bin(op_re, a_all, b_all, label, pass_value):
+    """guard = branch on a MIR comparison `a <op> b` (op matching op_re) where the deep origins of `a` match every regex
+    in a_all and those of `b` every regex in b_all; protected code on the edge where the comparison == pass_value"""
+    opr = re.compile(op_re)
+
+    def fn(body):
+        edges, blocks = [], []
+        for bb in body.switches():
+            si = body.switch_info(bb)
+            if not si or si["kind"] != "bool":
+                continue
+            for a in si["atoms"]:
+                if a.kind != "bin" or not opr.fullmatch(a.what):
+                    continue
+                na = origin_names(body, a.extra["a"], deep=True)
+                nb = origin_names(body, a.extra["b"], deep=True)
+                if all(any(re.search(r, x) for x in na) for r in a_all) and all(any(re.search(r, x) for x in nb) for r in b_all):
+                    edges.append((bb, si["true"] if pass_value else si["false"]))
+                    blocks.append(bb)
+        return edges, blocks
+    return ("custom", fn, label)
